@@ -416,7 +416,7 @@ def run(run):
         "traces_validated_against_impl": rstats.get("accepted", 0),
         "planner": {k: pstats.get(k, 0) for k in (
             "n", "builds", "distinct_builds", "colliding", "multi", "notinmodel", "planfail", "planfail_known",
-            "opmismatch", "parse", "hyg_multi", "fullset", "new", "actions", "commit", "setrt", "clrrt", "remove", "count")},
+            "opmismatch", "parse", "hyg_multi", "fullset", "capped", "new", "actions", "commit", "setrt", "clrrt", "remove", "count")},
         "runner": rstats,
         "f9_regression_witness": f9,
     })
